@@ -25,7 +25,7 @@ from .terms import (
     Tuple,
     ValueWrapper,
 )
-from .utils import builder, format_alias_sql, format_quotes, ignore_copy
+from .utils import builder, format_alias_sql, format_identifier, ignore_copy
 
 if TYPE_CHECKING:
     if sys.version_info >= (3, 11):
@@ -114,7 +114,7 @@ class Schema:
 
     def get_sql(self, ctx: SqlContext) -> str:
         # FIXME escape
-        schema_sql = format_quotes(self._name, ctx.quote_char)
+        schema_sql = format_identifier(self._name, ctx.quote_char)
 
         if self._parent is not None:
             return "{parent}.{schema}".format(
@@ -181,7 +181,7 @@ class Table(Selectable):
 
     def get_sql(self, ctx: SqlContext) -> str:
         # FIXME escape
-        table_sql = format_quotes(self._table_name, ctx.quote_char)
+        table_sql = format_identifier(self._table_name, ctx.quote_char)
 
         if self._schema is not None:
             table_sql = "{schema}.{table}".format(schema=self._schema.get_sql(ctx), table=table_sql)
@@ -312,7 +312,7 @@ class Column:
 
     def get_name_sql(self, ctx: SqlContext) -> str:
         column_sql = "{name}".format(
-            name=format_quotes(self.name, ctx.quote_char),
+            name=format_identifier(self.name, ctx.quote_char),
         )
 
         return column_sql
@@ -367,7 +367,7 @@ class PeriodFor:
 
     def get_sql(self, ctx: SqlContext) -> str:
         period_for_sql = "PERIOD FOR {name} ({start_column_name},{end_column_name})".format(
-            name=format_quotes(self.name, ctx.quote_char),
+            name=format_identifier(self.name, ctx.quote_char),
             start_column_name=self.start_column.get_name_sql(ctx),
             end_column_name=self.end_column.get_name_sql(ctx),
         )
@@ -664,7 +664,7 @@ class _SetOperation(Selectable, Term):  # type:ignore[misc]
         selected_aliases = {s.alias for s in self.base_query._selects}
         for field, directionality in self._orderbys:
             term = (
-                format_quotes(field.alias, ctx.quote_char)
+                format_identifier(field.alias, ctx.quote_char)
                 if field.alias and field.alias in selected_aliases
                 else field.get_sql(ctx)
             )
@@ -1707,7 +1707,7 @@ class QueryBuilder(Selectable, Term):  # type:ignore[misc]
         for field in self._groupbys:
             if (alias := field.alias) and alias in selected_aliases:
                 if ctx.groupby_alias:
-                    clauses.append(format_quotes(alias, ctx.alias_quote_char or ctx.quote_char))
+                    clauses.append(format_identifier(alias, ctx.alias_quote_char or ctx.quote_char))
                 else:
                     for select in self._selects:
                         if select.alias == alias:
@@ -1741,7 +1741,7 @@ class QueryBuilder(Selectable, Term):  # type:ignore[misc]
         selected_aliases = {s.alias for s in self._selects}
         for field, directionality in self._orderbys:
             term = (
-                format_quotes(field.alias, ctx.alias_quote_char or ctx.quote_char)
+                format_identifier(field.alias, ctx.alias_quote_char or ctx.quote_char)
                 if ctx.orderby_alias and field.alias and field.alias in selected_aliases
                 else field.get_sql(ctx)
             )
